@@ -88,18 +88,26 @@ func NewConn(name string, notify bool) *Conn {
 }
 
 // Feed queues bytes for the read side: one Read returns at most one fed chunk.
-func (c *Conn) Feed(b []byte) { c.in <- chunk{data: append([]byte(nil), b...)} }
+func (c *Conn) Feed(b []byte) { c.put(chunk{data: append([]byte(nil), b...)}) }
+
+// put queues a chunk; once the connection is closed nobody reads any more and the chunk is dropped.
+func (c *Conn) put(ch chunk) {
+	select {
+	case c.in <- ch:
+	case <-c.closed:
+	}
+}
 
 // FeedDelayed queues bytes that become readable only after d has passed once the reader reaches them.
 func (c *Conn) FeedDelayed(b []byte, d time.Duration) {
-	c.in <- chunk{data: append([]byte(nil), b...), delay: d}
+	c.put(chunk{data: append([]byte(nil), b...), delay: d})
 }
 
 // FeedEOF makes the read side return io.EOF after everything queued so far.
-func (c *Conn) FeedEOF() { c.in <- chunk{eof: true} }
+func (c *Conn) FeedEOF() { c.put(chunk{eof: true}) }
 
 // FeedErr makes the read side fail with err.
-func (c *Conn) FeedErr(err error) { c.in <- chunk{err: err} }
+func (c *Conn) FeedErr(err error) { c.put(chunk{err: err}) }
 
 func (c *Conn) Read(p []byte) (int, error) {
 	if len(c.pending) == 0 {
